@@ -1,4 +1,5 @@
 //! vseq: the sequential exploration engine (C01 C02 C03 C04 C05 C07 C08 C12 C13 C14 C17 C18).
+mod gate;
 mod histcheck;
 mod reg;
 mod sread;
@@ -36,6 +37,14 @@ fn violation_from_json(j: &Value) -> (Vec<String>, vcommon::Violation) {
 /// which entries a property's exploration iterates over, and what one item does
 fn job_entries(prop: &str, thorough: bool) -> Vec<reg::Entry> {
     match prop {
+        "C05" => {
+            let mut v = reg::all(false);
+            if thorough {
+                // class representatives of the thorough family: every 3rd type
+                v.extend(reg::family("types_thorough").into_iter().step_by(3));
+            }
+            v
+        }
         "C03" | "C18" => {
             let mut v = reg::family("hist");
             if thorough {
@@ -71,7 +80,11 @@ fn job_child(prop: &str, thorough: bool, k: usize, n: usize, resume: (i64, u64))
             emit: &mut emit,
         };
         let sample;
-        if let Some(h) = &hist {
+        if prop == "C05" {
+            gate::pair_item(&entries, pos, &mut d, &mut st);
+            let e = &entries[pos];
+            sample = json!({"saved_type": e.ty.describe(), "loaded_types": entries.len(), "example_claims": entries.iter().take(4).map(|l| format!("{} -> {:?}", l.ty.describe(), vmodel::grammar::claim(&e.ty, &l.ty, e.ty.max_version()))).collect::<Vec<_>>()});
+        } else if let Some(h) = &hist {
             histcheck::hist_item(h, pos, prop, thorough, &mut d, &mut st);
             let nd = &h.nodes[pos];
             sample = json!({"node": nd.ty.describe(), "version": nd.depth,
@@ -126,7 +139,7 @@ fn run_sweep(run: &mut Run, prop: &'static str) -> Map<String, Value> {
             // a crash belongs to the round-trip property, and to the packed-path property when
             // it happened in a bulk context
             let bulk = case["context"].as_str() != Some("Single");
-            if !(prop == "C01" || prop == "C03" || prop == "C18" || (prop == "C04" && bulk)) {
+            if !(prop == "C01" || prop == "C03" || prop == "C18" || prop == "C05" || (prop == "C04" && bulk)) {
                 return;
             }
             g.0.violation(vcommon::Violation {
@@ -171,7 +184,7 @@ fn main() {
         let resume_pos: i64 = args.extra.iter().position(|a| a == "--resume-after").map(|j| args.extra[j + 1].parse().unwrap()).unwrap_or(-1);
         let resume_sno: u64 = args.extra.iter().position(|a| a == "--resume-sno").map(|j| args.extra[j + 1].parse().unwrap()).unwrap_or(0);
         match prop {
-            "C01" | "C02" | "C04" | "C12" | "C03" | "C18" => job_child(prop, args.tier == Tier::Thorough, k, n, (resume_pos, resume_sno)),
+            "C01" | "C02" | "C04" | "C12" | "C03" | "C18" | "C05" => job_child(prop, args.tier == Tier::Thorough, k, n, (resume_pos, resume_sno)),
             _ => vcommon::machinery_error("no child mode for this property"),
         }
     }
@@ -186,6 +199,18 @@ fn main() {
             };
             cov.insert("rule".into(), json!(rule));
             cov.insert("distinct_nontrivial".into(), nontrivial);
+            cov
+        }
+        "C05" => {
+            let mut cov = run_sweep(&mut run, prop);
+            let snapshot = cov.clone();
+            let g = |k: &str| snapshot.get(k).and_then(|v| v.as_u64()).unwrap_or(0);
+            let (pairs, claimed, hdr) = (g("C05_pairs"), g("C05_must_reject") + g("C05_must_accept"), g("C05_header_mutations"));
+            cov.insert("states".into(), json!(pairs + hdr));
+            cov.insert("evaluations".into(), json!(pairs + hdr));
+            cov.insert("traces_validated_against_impl".into(), json!(claimed + g("C05_header_must_reject")));
+            cov.insert("distinct_nontrivial".into(), json!(claimed + g("C05_header_must_reject")));
+            cov.insert("rule".into(), json!("state = ordered pair (saved type, loaded type) x value, or (file, header byte position, replacement byte); non-trivial = the model makes a claim (must-reject / must-accept; header: must fail before the payload)"));
             cov
         }
         "C03" | "C18" => {
@@ -270,6 +295,34 @@ fn replay(run: &mut Run, prop: &'static str, path: &std::path::Path) -> ! {
             }
             for f in out {
                 if f.props.contains(&prop) {
+                    println!("REPLAY-FAIL oracle={} {}", f.v.oracle, f.v.summary);
+                    run.violation(f.v);
+                }
+            }
+        }
+        Some("gate_pair") => {
+            let find = |fam: &str, name: &str| reg::family(fam).into_iter().find(|e| e.ty.rust() == name).unwrap_or_else(|| vcommon::machinery_error(&format!("replay: type {} not in family {}", name, fam)));
+            let s = find(case["saved_family"].as_str().unwrap_or(""), case["saved_type"].as_str().unwrap_or(""));
+            let l = find(case["loaded_family"].as_str().unwrap_or(""), case["loaded_type"].as_str().unwrap_or(""));
+            let val = valjson::from_json(&case["value"]);
+            let mut out = vec![];
+            let mut st = sweep::Stats::default();
+            gate::check_pair(&s, &l, &val, &mut out, &mut st);
+            for f in out {
+                println!("REPLAY-FAIL oracle={} {}", f.v.oracle, f.v.summary);
+                run.violation(f.v);
+            }
+        }
+        Some("gate_header") => {
+            let fam = case["family"].as_str().unwrap_or("");
+            let e = reg::family(fam).into_iter().find(|e| e.ty.rust() == case["rust_type"].as_str().unwrap_or("")).unwrap_or_else(|| vcommon::machinery_error("replay: type not found"));
+            let val = valjson::from_json(&case["value"]);
+            let mut out = vec![];
+            let mut st = sweep::Stats::default();
+            gate::header_item(&e, &val, &mut out, &mut st);
+            let (pos, byte) = (case["pos"].as_u64(), case["byte"].as_u64());
+            for f in out {
+                if f.v.case["pos"].as_u64() == pos && f.v.case["byte"].as_u64() == byte && f.v.case["container"] == case["container"] {
                     println!("REPLAY-FAIL oracle={} {}", f.v.oracle, f.v.summary);
                     run.violation(f.v);
                 }
